@@ -21,7 +21,7 @@ RULE = ('callable kinds (function, lambda, builtin sum, callable instance, funct
         'pickles, rejected registrations leave the registry unchanged, re-registration only inside interactive mode (block exit by return or '
         'exception). distinct = (kind, api, form, overrides, access path)')
 TIERS = {
-    'quick': {'workers': 8, 'cases': 350, 'timeout': 600},
+    'quick': {'workers': 8, 'cases': 1750, 'timeout': 600},
     'thorough': {'workers': 16, 'cases': 9000, 'timeout': 3000},
 }
 KINDS = ['function', 'lambda', 'builtin', 'callable-instance', 'partial', 'cls-init', 'cls-new', 'cls-both', 'cls-neither', 'cls-meta', 'cls-slots',
